@@ -185,6 +185,37 @@ impl COracle for Oracle {
                 }
             }
         }
+        // evaluations of DEGENERATE request points (identity, base point) are values like any other
+        if let Some(sv) = w.servers.iter().find(|s| s.model.key_id == x.key_id) {
+            use curve25519_dalek::traits::Identity;
+            let ident = curve25519_dalek::ristretto::RistrettoPoint::identity().compress().to_bytes();
+            let base = curve25519_dalek::constants::RISTRETTO_BASEPOINT_POINT.compress().to_bytes();
+            for (name, pb) in [("identity", ident), ("base point", base)] {
+                let pt = pp::Point::from(&pb[..]);
+                let pj = serde_json::to_vec(&pt).map_err(|e| Violation::new("c15.roundtrip", "point_serialize", e.to_string()))?;
+                match serde_json::from_slice::<pp::Point>(&pj) {
+                    Ok(back) if back == pt => {}
+                    _ => return Err(Violation::new("c15.roundtrip", "degenerate_point", format!("the {} as a point does not survive JSON", name))),
+                }
+                if let Ok(ev) = sv.server.eval(&pt, x.md, true) {
+                    let js = serde_json::to_vec(&ev).map_err(|e| Violation::new("c15.roundtrip", "evaluation_serialize", e.to_string()))?;
+                    match serde_json::from_slice::<pp::Evaluation>(&js) {
+                        Ok(back) => {
+                            if serde_json::to_vec(&back).ok().as_ref() != Some(&js) {
+                                return Err(Violation::new("c15.roundtrip", "degenerate_evaluation_differs", format!("the evaluation of the {} restored from JSON serialises differently", name)));
+                            }
+                            if pp::Client::verify(&pk, &pt, &back, x.md) != pp::Client::verify(&pk, &pt, &ev, x.md) {
+                                return Err(Violation::new("c15.roundtrip", "degenerate_not_interchangeable", format!("the restored evaluation of the {} is not interchangeable in verification", name)));
+                            }
+                        }
+                        Err(e) => {
+                            return Err(Violation::new("c15.roundtrip", "degenerate_evaluation_refused", format!("the server's evaluation of the {} as request point cannot be restored from its own JSON: {}", name, e)));
+                        }
+                    }
+                    ctx.stats.probe("degenerate_evaluations_checked");
+                }
+            }
+        }
         ctx.stats.probe("evaluations_checked");
         ctx.stats.state(crate::choices::mix(x.pk_bytes.len() as u64, crate::choices::mix(x.eval_json.len() as u64, x.md as u64)));
         ctx.stats.nontrivial = true;
